@@ -62,12 +62,17 @@ def exNoBf : CTy :=
 example : exNoBf.wf = true ∧ exNoBf.noBf = true := by decide
 example : (c2mLay exNoBf).size = 32 ∧ (c2mLay exNoBf).align = 16 := by decide +kernel
 
-/-- `layout_wf`, part 2: the members of a struct without bit-fields are laid out in declaration
-order, pairwise disjoint and inside the object. -/
-theorem layout_wf_struct_disjoint (ms : Mems) (hw : (CTy.agg false ms).wf = true) (hn : ms.noBf = true) :
+/-- `layout_wf`, part 2: the members of a struct are laid out in declaration order, pairwise
+disjoint and inside the object — for every declaration that satisfies the side condition of
+`layout_meets_sysv_partial` (in particular for every declaration without bit-fields). -/
+theorem layout_wf_struct_disjoint (ms : Mems) (hw : (CTy.agg false ms).wf = true)
+    (hs : (CTy.agg false ms).bfSimple = true) :
     orderedUpTo 0 (c2mLay (.agg false ms)).mems (8 * (c2mLay (.agg false ms)).size) = true := by
-  rw [layout_meets_sysv (.agg false ms) hw (by simpa [CTy.noBf] using hn)]
-  exact sysvLay_struct_ordered ms hn
+  rw [(lay_eq_simple (.agg false ms) hw hs).1]
+  exact sysvLay_struct_ordered ms
+
+example : (CTy.agg false (.cons (.bf 3 true) (.sc .int) (.cons .plain (.sc .char) .nil))).bfSimple = true := by
+  decide
 
 /-! ### The full statements are false for bit-fields (DESIGN §6 #22–#24) -/
 
@@ -85,6 +90,7 @@ def ex24 : CTy := .agg false (.cons (.bf 0 false) (.sc .char) (.cons .plain (.sc
 theorem layout_meets_sysv_full_false : ∃ t : CTy, t.wf = true ∧ c2mLay t ≠ sysvLay t :=
   ⟨ex22, by decide, by decide +kernel⟩
 
+/- FALSE today:  layout_wf_struct_disjoint for every well-formed struct (see `ex22_overlap`). -/
 /-- #22: f2 is put at bit 4, on top of f0 (bits 0–4) and f1 (bits 8–11); psABI: bit 12 -/
 theorem ex22_overlap : (c2mLay ex22).mems.map (·.bitpos) = [0, 8, 4]
     ∧ (sysvLay ex22).mems.map (·.bitpos) = [0, 8, 12]
